@@ -503,6 +503,12 @@ func (t *Task) TempDir() string {
 	pathPrefix := tempDirPrefix + "." + sanitizePathFragment(t.Name)
 	hashPcs := []string{t.Name}
 	for _, ipName := range sortedFileIPMapKeys(t.InIPs) {
+		// The IP received on a joined port only carries the sub-stream, and
+		// has a random temporary file name. The files of the sub-stream
+		// themselves are added below.
+		if ptInfo, ok := t.portInfos[ipName]; ok && ptInfo.join {
+			continue
+		}
 		hashPcs = append(hashPcs, splitAllPaths(t.InIP(ipName).Path())...)
 	}
 	for _, subIPName := range sortedFileIPSliceMapKeys(t.subStreamIPs) {
